@@ -1,5 +1,6 @@
 //! C17 — per-module level map: the minimum registered for the longest registered path that is the
 //! event's module or an ancestor of it at `::` boundaries applies; else the map's default; else accept.
+use crate::env::parse_unreachable;
 use emit::level::{MinLevelFilter, MinLevelPathMap};
 use emit::Level;
 use emit_core::empty::Empty;
@@ -61,31 +62,65 @@ fn family(p0: &'static str, p1: &'static str, module: &'static str) {
     kani::cover!(got, "accepted");
 }
 
+/// Single-registration families (quick tier): one concrete registered path (present or not, any level), optional
+/// default of any level, concrete event module, any typed event level.
+fn family1(p0: &'static str, module: &'static str) {
+    let mut map = MinLevelPathMap::new();
+    let has_default: bool = kani::any();
+    let dflt: usize = kani::any();
+    kani::assume(dflt < 4);
+    if has_default { map.default_min_level(LEVELS[dflt]); }
+    let use0: bool = kani::any();
+    let l0: usize = kani::any();
+    kani::assume(l0 < 4);
+    if use0 { map.min_level(Path::new_raw(p0), LEVELS[l0]); }
+    let el: usize = kani::any();
+    kani::assume(el < 4);
+    let got = map.matches(Event::new(Path::new_raw(module), Template::literal("t"), Empty, ("lvl", LEVELS[el])));
+    let min = if use0 && under(module, p0) { Some(l0) } else if has_default { Some(dflt) } else { None };
+    let want = match min { Some(min) => LEVELS[el] >= LEVELS[min], None => true };
+    assert!(got == want, "the rule of the longest registered ancestor-or-self applies, else the default, else accept");
+    core::mem::forget(map);
+    kani::cover!(use0 && !got, "rejected");
+    kani::cover!(got, "accepted");
+}
+
+macro_rules! fam1 {
+    ($name:ident, $p0:expr, $m:expr) => {
+        #[kani::proof]
+        #[kani::unwind(12)]
+        #[kani::stub(emit_core::value::Value::parse, parse_unreachable)]
+        pub fn $name() { family1($p0, $m); }
+    };
+}
+
 macro_rules! fam {
     ($name:ident, $p0:expr, $p1:expr, $m:expr) => {
         #[kani::proof]
         #[kani::unwind(12)]
+        #[kani::stub(emit_core::value::Value::parse, parse_unreachable)]
         pub fn $name() { family($p0, $p1, $m); }
     };
 }
 
-// nested rules: the most specific wins
-fam!(c17_q_pathmap_nested, "a", "a::b", "a::b::c");
-// siblings sharing a textual prefix
-fam!(c17_q_pathmap_prefix_sibling, "a", "aa", "aa");
-fam!(c17_q_pathmap_prefix_sibling_child, "a::b", "a::bb", "a::bb::c");
-// repeated registration of the same path: the later one wins
-fam!(c17_q_pathmap_repeated, "a", "a", "a::b");
-// a registered name that occurs deeper in an unrelated module path must not match
-fam!(c17_q_pathmap_unrelated_suffix, "b", "a::b", "a::b");
-fam!(c17_q_pathmap_skipped_segment, "noisy", "app", "app::x::noisy");
-fam!(c17_q_pathmap_root_mismatch, "a", "a::b", "z::a::b");
-fam!(c17_t_pathmap_deeper, "a::b::c", "a::b", "a::b::c::d");
-fam!(c17_t_pathmap_child_of_unregistered, "a::b", "c", "a::x::b");
-fam!(c17_t_pathmap_exact, "a::b", "a", "a");
+// quick: single registration
+fam1!(c17_q_pathmap1_exact, "a::b", "a::b");
+fam1!(c17_q_pathmap1_descendant, "a", "a::b::c");
+fam1!(c17_q_pathmap1_prefix_sibling, "a", "aa");
+fam1!(c17_q_pathmap1_prefix_sibling_child, "a::b", "a::bb::c");
+fam1!(c17_q_pathmap1_ancestor_only, "a::b", "a");
+fam1!(c17_q_pathmap1_skipped_segment, "noisy", "app::noisy");
+fam1!(c17_q_pathmap1_inner_mismatch, "a::b", "a::x::b");
+// thorough: two registrations in symbolic order
+fam!(c17_t_pathmap_nested, "a", "a::b", "a::b::c");
+fam!(c17_t_pathmap_prefix_sibling, "a", "aa", "aa");
+fam!(c17_t_pathmap_repeated, "a", "a", "a::b");
+fam!(c17_t_pathmap_unrelated_suffix, "b", "a::b", "a::b");
+fam!(c17_t_pathmap_root_mismatch, "a", "a::b", "z::a::b");
 
 #[kani::proof]
 #[kani::unwind(12)]
+#[kani::stub(emit_core::value::Value::parse, parse_unreachable)]
 pub fn c17_w_twin_prefix_is_textual() {
     // false claim: `aa` is governed by the rule for `a`
     let mut map = MinLevelPathMap::new();
